@@ -867,6 +867,7 @@ func init() {
 	replayRegistrars = append(replayRegistrars, func() {
 		registerReplay("C02/server-stream", func(c streamCase) *fail { return runStreamCase(c, nil) })
 		registerReplay("C02/renegotiated-limit", runRenegCase)
+		registerReplay("C02/client-limit", runClientLimitCase)
 		registerReplay("C02/socket-stream", runSockStreamCase)
 		registerReplay("C02/concurrent-receivers", runConcRecvCase)
 		registerReplay("C02/stream", func(c rawStreamCase) *fail { return checkStream(c.Data, c.Msize) })
@@ -936,6 +937,25 @@ func TestC02(t *testing.T) {
 		}
 	}
 
+	// the client as receiver behind a server that lowered msize
+	rapidCases(h, "client-limit", env.PerShard(env.Pick(1200, 40000)), func(rt *rapid.T) clientLimitCase {
+		c := clientLimitCase{Ask: rapid.SampledFrom([]uint32{8192, 65536, 1 << 20}).Draw(rt, "ask")}
+		c.Offer = rapid.SampledFrom([]uint32{4096, 8192, 20000, 60000}).Draw(rt, "offer")
+		if c.Offer > c.Ask {
+			c.Offer = c.Ask
+		}
+		c.Size = rapid.SampledFrom([]uint32{c.Offer, c.Offer - 1, c.Offer + 1, c.Offer + 1000, c.Ask, c.Ask + 1, (c.Offer + c.Ask) / 2, 4000, 100}).Draw(rt, "size")
+		if c.Size <= c.Offer && c.Size > 60000 {
+			c.Size = 60000 // (a name holds at most 65535 bytes)
+		}
+		return c
+	}, func(c clientLimitCase) *fail {
+		h.Case(evid.HashJSON(c), c.Offer < c.Ask && c.Size > c.Offer && c.Size <= c.Ask, "client-limit")
+		if h.WantSample("client-limit") {
+			h.Sample("client-limit", c)
+		}
+		return runClientLimitCase(c)
+	})
 	// the limit that applies to the first frame after a second Tversion
 	rapidCases(h, "renegotiated-limit", env.PerShard(env.Pick(4000, 160000)), func(rt *rapid.T) renegCase {
 		c := renegCase{First: rapid.SampledFrom([]uint32{4096, 8192, 65536, 1 << 20}).Draw(rt, "first"),
